@@ -323,6 +323,52 @@ def _pow(x, y):
     return x ** y if isinstance(x, Sym) else REAL_MATH['pow'](x, y)
 
 
+def _anysym(*a):
+    return any(isinstance(x, Sym) for x in a)
+
+
+def _fmod(x, y):
+    # C fmod: x - y*trunc(x/y), the result has the sign of x
+    if _anysym(x, y):
+        xt, yt = lift(x), lift(y)
+        return Sym(xt - yt * trunc(xt / yt))
+    return REAL_MATH['fmod'](x, y)
+
+
+def _ceil(x):
+    return Sym(-z3.ToReal(z3.ToInt(-x.t))) if isinstance(x, Sym) else REAL_MATH['ceil'](x)
+
+
+def _mtrunc(x):
+    return Sym(trunc(x.t)) if isinstance(x, Sym) else REAL_MATH['trunc'](x)
+
+
+def _copysign(x, y):
+    if _anysym(x, y):
+        xt, yt = lift(x), lift(y)
+        ax = z3.If(xt >= 0, xt, -xt)
+        return Sym(z3.If(yt >= 0, ax, -ax))          # -0.0 does not exist in R
+    return REAL_MATH['copysign'](x, y)
+
+
+def _hypot(*a):
+    if _anysym(*a):
+        t = None
+        for x in a:
+            xt = lift(x)
+            t = xt * xt if t is None else t + xt * xt
+        return Sym(UF['sqrt'](t))
+    return REAL_MATH['hypot'](*a)
+
+
+def _remainder_unsupported(name):
+    def f(*a):
+        if _anysym(*a):
+            raise EngineError('math.%s of a symbol is outside the value library' % name)
+        return REAL_MATH[name](*a)
+    return f
+
+
 _installed = False
 
 
@@ -338,6 +384,15 @@ def install_math():
     math.fabs = _fabs
     math.floor = _floor
     math.pow = _pow
+    for k_ in ('fmod', 'ceil', 'trunc', 'copysign', 'hypot', 'remainder', 'modf', 'frexp', 'isclose', 'expm1', 'log1p', 'log10', 'log2', 'acosh'):
+        REAL_MATH.setdefault(k_, getattr(math, k_))
+    math.fmod = _fmod
+    math.ceil = _ceil
+    math.trunc = _mtrunc
+    math.copysign = _copysign
+    math.hypot = _hypot
+    for k_ in ('remainder', 'modf', 'frexp', 'isclose', 'expm1', 'log1p', 'log10', 'log2', 'acosh'):
+        setattr(math, k_, _remainder_unsupported(k_))          # a clear engine error instead of float(symbol) deep inside C code
     _installed = True
 
 
